@@ -458,47 +458,50 @@ Definition typeof_ident_ref (e : expr) : option Z :=
   | _ => None
   end.
 
+Definition as_str (e : expr) : option (list Z) := match e with EStr s => Some s | _ => None end.
+Definition as_id (e : expr) : option Z := match e with EId r _ _ => Some r | _ => None end.
+(* typeof <operand> with WasOriginallyTypeofIdentifier set *)
+Definition as_typeof_marked (e : expr) : option expr :=
+  match e with
+  | EUn op tv w => if unop_eqb op UTypeof && w then Some tv else None
+  | _ => None
+  end.
+Definition is_ne_op (op : binop) : bool := match op with BStrictNe | BLooseNe => true | _ => false end.
+Definition is_lt_le_op (op : binop) : bool := match op with BLt | BLe => true | _ => false end.
+
 Definition is_sefree_unbound_ref (unbound : Z -> bool) (value guard : expr) (isYes : bool) : bool :=
-  match value with
-  | EId ref _ _ =>
+  match as_id value with
+  | Some ref =>
       if unbound ref then
         match guard with
         | EBin op gl gr =>
             match op with
             | BStrictEq | BStrictNe | BLooseEq | BLooseNe =>
-                let '(ty, st) := match gl with EStr _ => (gr, gl) | _ => (gl, gr) end in
-                match ty with
-                | EUn UTypeof tv true =>
-                    match st with
-                    | EStr text =>
-                        if Bool.eqb (Bool.eqb (zlist_eqb text str_undefined) isYes)
-                                    (match op with BStrictNe | BLooseNe => true | _ => false end)
-                        then match tv with EId r2 _ _ => r2 =? ref | _ => false end
-                        else false
-                    | _ => false
-                    end
-                | _ => false
+                (* Pattern match for "typeof x !== <string>" (either order) *)
+                let '(ty, st) := match as_str gl with Some _ => (gr, gl) | None => (gl, gr) end in
+                match as_typeof_marked ty, as_str st with
+                | Some tv, Some text =>
+                    if Bool.eqb (Bool.eqb (zlist_eqb text str_undefined) isYes) (is_ne_op op)
+                    then match as_id tv with Some r2 => r2 =? ref | None => false end
+                    else false
+                | _, _ => false
                 end
             | BLt | BGt | BLe | BGe =>
-                let '(ty, st, isYes) := match gl with EStr _ => (gr, gl, negb isYes) | _ => (gl, gr, isYes) end in
-                match ty with
-                | EUn UTypeof tv true =>
-                    match st with
-                    | EStr text =>
-                        if zlist_eqb text str_u &&
-                           Bool.eqb isYes (match op with BLt | BLe => true | _ => false end)
-                        then match tv with EId r2 _ _ => r2 =? ref | _ => false end
-                        else false
-                    | _ => false
-                    end
-                | _ => false
+                (* Pattern match for "typeof x < <string>" (flipped: the branch sense flips too) *)
+                let '(ty, st, isYes) := match as_str gl with Some _ => (gr, gl, negb isYes) | None => (gl, gr, isYes) end in
+                match as_typeof_marked ty, as_str st with
+                | Some tv, Some text =>
+                    if zlist_eqb text str_u && Bool.eqb isYes (is_lt_le_op op)
+                    then match as_id tv with Some r2 => r2 =? ref | None => false end
+                    else false
+                | _, _ => false
                 end
             | _ => false
             end
         | _ => false
         end
       else false
-  | _ => false
+  | None => false
   end.
 
 (* ---- ExprCanBeRemovedIfUnused ---------------------------------------------------------- *)
@@ -887,7 +890,6 @@ Definition orelse {A} (a : option A) (b : option A) : option A :=
 
 Definition is_spread (e : expr) : bool := match e with ESpread _ => true | _ => false end.
 Definition as_bool (e : expr) : option bool := match e with EBool b => Some b | _ => None end.
-Definition as_id (e : expr) : option Z := match e with EId r _ _ => Some r | _ => None end.
 Definition as_call (e : expr) : option (expr * expr * list expr * Z * bool) :=
   match e with ECall t (a0 :: tl) oc p => Some (t, a0, tl, oc, p) | _ => None end.
 Definition as_spread (e : expr) : option expr := match e with ESpread v => Some v | _ => None end.
